@@ -206,6 +206,7 @@ bool Instance::setup_environment(unsigned int flags) {
     env->pretend_valid_map = pretend_valid_map;
     env->pretend_valid_pubkeys = pretend_valid_pubkeys;
     env->done &= successor_script.size() == 0;
+    env->done &= tce == nullptr; // a pending taproot commitment check must still be stepped through
     env->execdata = execdata;
     env->tce = tce;
 
